@@ -71,6 +71,21 @@ type Out struct {
 	// classification of a save on the implementation (for the finding signature): the first new index was found by
 	// SlotGe in a rotated file (file index >= 0) at slot > 0
 	EarlierConflict bool `json:"ec,omitempty"`
+	// fsave: the failed step as a fault of the Coq model, and what the live store answered right after the failure
+	Fault *FaultObs `json:"fault,omitempty"`
+}
+
+// FaultObs: K clear|entry|hs|snap, J/Rot for entry (see faultOf), Rep = the Save reported an error; F, L, Cnt, Sum = first
+// index, last index and full-scan checksum of the live store after the failed Save (before the retry).
+type FaultObs struct {
+	K   string `json:"k"`
+	J   int    `json:"j"`
+	Rot bool   `json:"rot"`
+	Rep bool   `json:"rep"`
+	F   uint64 `json:"f"`
+	L   uint64 `json:"l"`
+	Cnt uint64 `json:"cnt"`
+	Sum uint64 `json:"sum"`
 }
 
 type Case struct {
@@ -181,6 +196,7 @@ type world struct {
 	si     uint64
 	c      *Case
 	fdLeak []*raftlog.RaftDiskStorage
+	fault  *FaultObs // set by faultSave for the op being applied
 }
 
 func newWorld(dir string, c *Case) (*world, error) {
@@ -304,7 +320,9 @@ func (w *world) apply(op *Op) (o Out) {
 		case "csave":
 			o.E = errCode(w.crashSave(op, hs, es, sn))
 		case "fsave":
+			w.fault = nil
 			o.E = errCode(w.faultSave(op, hs, es, sn))
+			o.Fault, w.fault = w.fault, nil
 		default:
 			o.E = errCode(w.ds.Save(hs, es, sn))
 		}
